@@ -370,9 +370,20 @@ def check_cache_key(ctx, w: World, om: OriginModel, ci: CacheInfo, name: str, wh
             return
         # key expression: tuple of tuple(X) for every component X unpacked from the argument
         key_def = None
+        key_defs = []
         for n in ast.walk(fn):
             if isinstance(n, ast.Assign) and isinstance(ci.key_expr, ast.Name) and any(isinstance(t, ast.Name) and t.id == ci.key_expr.id for t in n.targets):
                 key_def = n.value
+                key_defs.append(n.value)
+        if len(key_defs) > 1:
+            # the key is built in more than one way: every way must cover the argument; one that takes the key from elsewhere
+            # (a parameter, a counter) makes completeness a property of the callers
+            odd = [d for d in key_defs if not isinstance(d, ast.Tuple)]
+            if odd:
+                ctx.unk("C17.2", f"cache {name}: the key is also taken from `{core.src(odd[0])[:60]}`", where,
+                        f"{len(key_defs)} definitions of `{ci.key_expr.id}`; whether `{core.src(odd[0])[:60]}` identifies what the cached value is computed from "
+                        f"is decided by the callers, not here")
+                return
         comps: Set[str] = set()
         unpacked: Set[str] = set()
         for n in ast.walk(fn):
